@@ -473,3 +473,44 @@ func VerifC14BackoffRate() {
 	}
 	zzverif.Reach("C14.rate.done")
 }
+
+// VerifC19ReloadRacesLogin: a configuration reload arrives while a (re)login is completing, in its
+// own goroutine, at any point of the login's last steps (every interleaving within the preemption
+// bound): the session that results registers the configuration loaded last - the reload is applied
+// either to the snapshot the new session starts from or to the new session itself, never lost
+// between the two.
+func VerifC19ReloadRacesLogin() {
+	zzverif.SetPreempt(zzverif.Param("preempt", 1))
+	common := &v1.ClientCommonConfig{}
+	mux := false
+	common.Transport.TCPMux = &mux
+	conn := &c14Conn{}
+	kon := &c14Connector{conn: conn}
+	ctx, cancel := context.WithCancelCause(context.Background())
+	svr := &Service{ctx: ctx, cancel: cancel, common: common, authSetter: &c14Setter{}, clientSpec: &msg.ClientSpec{Type: "ssh-tunnel"},
+		connectorCreator: func(context.Context, *v1.ClientCommonConfig) Connector { return kon }}
+	mk := func(name string) v1.ProxyConfigurer {
+		c := &v1.TCPProxyConfig{}
+		c.Name, c.Type, c.LocalIP, c.LocalPort, c.RemotePort = name, "tcp", "127.0.0.1", 80, 6000
+		return c
+	}
+	svr.proxyCfgs = []v1.ProxyConfigurer{mk("a")}
+	c14.untilFn, c14.untilN, c14.backoffFn, c14.backoffN = nil, 0, nil, 0
+	c14.script, c14.scriptPos, c14.nextRunID, c14.respErr, c14.duringLogin = nil, 0, "rid", false, nil
+	svr.loopLoginUntilSuccess(10*time.Second, false)
+	zzverif.Assume(c14.backoffFn != nil)
+	reloaded := false
+	go func() {
+		_ = svr.UpdateAllConfigurer([]v1.ProxyConfigurer{mk("b")}, nil)
+		reloaded = true
+	}()
+	done, err := c14.backoffFn()
+	zzverif.Quiesce()
+	zzverif.Assert(done && err == nil && svr.ctl != nil && reloaded, "C19.reloadrace.login-and-reload-both-complete")
+	if svr.ctl == nil {
+		return
+	}
+	st := svr.ctl.pm.GetAllProxyStatus()
+	zzverif.Assert(len(st) == 1 && st[0].Name == "b", "C19.reloadrace.session-runs-the-configuration-loaded-last")
+	zzverif.Reach("C19.reloadrace.done")
+}
